@@ -54,6 +54,6 @@ pub fn d2() -> bool {
 pub fn run(id: &str) -> Option<bool> {
     Some(match id {
         "d2" => d2(),
-        _ => return None,
+        other => return iroh_docs::verif_incrate::witness::run(other),
     })
 }
